@@ -53,6 +53,9 @@ func checkC08(an *Analysis, add func(Violation)) {
 		if c.St.Op == model.GetDevices {
 			continue
 		}
+		if len(c.KFails) > 0 {
+			continue // the call could not get its own socket (an address the host does not have, ...): it never asked
+		}
 		if !c.St.Op.HasReply() {
 			if c.Rec.Obs.Failed() {
 				v("own-reply", "the call failed: "+c.Rec.Obs.Err)
